@@ -771,6 +771,79 @@ def build(case):
     return out
 
 
+# ----------------------------------------------------------------------------------------- two levels of fragments (C10)
+def render_cg_fragment(names, frag, start=0, lead=False):
+    """Coarse-level fragment text: nodes `[#name]`, the fragment's bonds (a tree of order-1 bonds), descriptors directly
+    behind their node - or, with lead=True, in front of the first node.  Branches as in render_base: the last
+    neighbour continues the chain, so two closing braces never follow each other."""
+    na = len(frag['atoms'])
+    adj = {a: [] for a in range(na)}
+    for a, b, o in frag['bonds']:
+        assert o == 1
+        adj[a].append(b)
+        adj[b].append(a)
+    assert len(frag['bonds']) == na - 1, 'coarse fragment is not a tree'
+    seen = set()
+
+    def write(a, first):
+        seen.add(a)
+        descs = ''.join('[' + t + ']' for t, o in frag['desc'].get(a, []))
+        tok = '[#' + names[frag['atoms'][a]] + ']'
+        out = (descs + tok) if (first and lead) else (tok + descs)
+        kids = [b for b in sorted(adj[a]) if b not in seen]
+        for i, c in enumerate(kids):
+            sub = write(c, False)
+            out += ('(' + sub + ')') if i < len(kids) - 1 else sub
+        return out
+
+    text = write(start % na, True)
+    assert len(seen) == na, 'coarse fragment not connected'
+    return text
+
+
+def block_name(i):
+    return 'X%d' % (i + 1)
+
+
+def build_two_level(case):
+    """A molecule described on three levels: blocks . beads . atoms.
+
+    case: {'mol', 'part' (atom -> bead), 'shares' (atom level, as in build), 'part1' (bead -> block), 'shares1' (bead
+    level: [index into the sorted bead-graph edges, end]), 'r' (rendering of the atom-level fragments; r['base'] is not
+    used), 'base1': priority list over the blocks, 'starts1': start bead per block, 'lead1': bool}.
+    The bead graph is the `edges` result of make_fragments for the atom level; it is used as the "molecule" of a second
+    make_fragments call that cuts it into blocks and replaces bead-level cuts by shared beads.
+    Returns None when the description is outside the family (a bead-graph or block-graph edge of order > 1, a block
+    that is not a tree), else {'two': blocks.beads.atoms string, 'one': beads.atoms string (the ordinary one-level
+    description with the SAME atom-level fragments), 'plan2', 'plan1', 'beads': bead names, 'order0': blocks in key
+    order of the top graph, 'order1': beads in key order of the one-level base graph, 'bead_edges'}."""
+    mol, part = case['mol'], case['part']
+    r = dict(case.get('r', {}))
+    r.pop('base', None)
+    r['ctor'] = 'string'
+    one = build({'mol': mol, 'part': part, 'shares': case.get('shares', ()), 'r': r})
+    plan2 = one['plan']
+    if any(o != 1 for o in plan2['edges'].values()):
+        return None
+    nb = one['nf']
+    bead_edges = sorted(plan2['edges'])
+    beadmol = {'a': [[frag_name(i), 0, 0] for i in range(nb)], 'b': [[u, v, 1] for u, v in bead_edges]}
+    plan1 = make_fragments(beadmol, case['part1'], case.get('shares1', ()), False, r.get('kind', '$'), 'upper')
+    if any(o != 1 for o in plan1['edges'].values()) or any(len(f['bonds']) != len(f['atoms']) - 1 for f in plan1['frags']):
+        return None
+    nblk = len(plan1['frags'])
+    bnames = {i: frag_name(i) for i in range(nb)}
+    starts1 = case.get('starts1') or [0] * nblk
+    texts = [render_cg_fragment(bnames, f, starts1[i], bool(case.get('lead1'))) for i, f in enumerate(plan1['frags'])]
+    xnames = {i: block_name(i) for i in range(nblk)}
+    base_str, visited = render_base(xnames, plan1['edges'], case.get('base1') or list(range(nblk)))
+    mid = '{' + ','.join('#%s=%s' % (xnames[i], texts[i]) for i in range(nblk)) + '}'
+    return {'two': base_str + '.' + mid + '.' + one['frag_str'], 'one': one['cg'], 'plan2': plan2, 'plan1': plan1,
+            'beads': bnames, 'blocks': xnames, 'order0': visited, 'order1': one['order'], 'bead_edges': bead_edges,
+            'base_str': base_str, 'names': xnames, 'edges': plan1['edges'], 'order': visited, 'cg': base_str, 'frag_str': one['frag_str'],
+            'one_built': one}
+
+
 def meta_graph(meta):
     g = nx.Graph()
     for k, name in meta[0]:
